@@ -513,3 +513,123 @@ Proof.
   - destruct (check_acyclic_sound _ _ _ E) as (((_ & ND) & _) & _). exact ND.
   - destruct (check_cyclic_sound _ _ _ _ E) as (((_ & ND) & _) & _). exact ND.
 Qed.
+
+(* ================================================================== part 3: loop-join order *)
+Lemma add_all_In : forall l s x, In x (add_all s l) <-> In x s \/ In x l.
+Proof.
+  unfold add_all. induction l as [|y t IH]; intros s x; cbn [fold_left].
+  - cbn. tauto.
+  - rewrite IH. destruct (memb y s) eqn:M.
+    + apply memb_In in M. cbn [In]. split; [tauto|]. intros [H|[H|H]]; subst; tauto.
+    + rewrite in_app_iff. cbn [In]. tauto.
+Qed.
+
+Lemma disjointb_false : forall a b, disjointb a b = false <-> exists x, In x a /\ In x b.
+Proof.
+  intros a b. unfold disjointb. split.
+  - intros H. induction a as [|y t IH]; cbn [forallb] in H; [discriminate|].
+    destruct (memb y b) eqn:M; cbn in H.
+    + exists y. split; [left; reflexivity|apply memb_In; exact M].
+    + destruct (IH H) as (x & Hx & Hb). exists x. split; [right; exact Hx|exact Hb].
+  - intros (x & Ha & Hb). destruct (forallb (fun x0 => negb (memb x0 b)) a) eqn:F; [|reflexivity].
+    rewrite forallb_forall in F. specialize (F x Ha). apply memb_In in Hb. rewrite Hb in F. discriminate.
+Qed.
+
+(* L is connected to the network N through loops of ls that pairwise share units *)
+Inductive rch (N : list nat) (ls : list (list nat)) : list nat -> Prop :=
+| rch_base : forall L, In L ls -> disjointb L N = false -> rch N ls L
+| rch_step : forall L' L, rch N ls L' -> In L ls -> disjointb L L' = false -> rch N ls L.
+
+Definition all_connected (N : list nat) (ls : list loop) : Prop :=
+  forall L, In L ls -> rch N (map snd ls) (snd L).
+
+Lemma pick_some : forall N ls b L a, pick N ls = Some (b, L, a) ->
+  ls = b ++ L :: a /\ disjointb (snd L) N = false.
+Proof.
+  intros N ls. induction ls as [|x t IH]; intros b L a H; cbn [pick] in H; [discriminate|].
+  destruct (disjointb (snd x) N) eqn:D.
+  - destruct (pick N t) as [[[b' L'] a']|] eqn:E; [|discriminate].
+    inversion H; subst. destruct (IH _ _ _ eq_refl) as (Eq & Dj). subst t. auto.
+  - inversion H; subst. auto.
+Qed.
+
+Lemma pick_none : forall N ls, pick N ls = None -> forall L, In L ls -> disjointb (snd L) N = true.
+Proof.
+  intros N ls. induction ls as [|x t IH]; intros H L I; [destruct I|]. cbn [pick] in H.
+  destruct (disjointb (snd x) N) eqn:D; [|discriminate].
+  destruct (pick N t) as [[[b' L'] a']|] eqn:E; [discriminate|].
+  destruct I as [I|I]; [subst; exact D|apply IH; auto].
+Qed.
+
+Lemma rch_touches : forall N ls L, rch N ls L -> exists L0, In L0 ls /\ disjointb L0 N = false.
+Proof. intros N ls L R. induction R as [L I D|L' L R IH I D]; [exists L; auto|exact IH]. Qed.
+
+Lemma rch_after_join : forall N b L0 a L,
+  rch N (b ++ L0 :: a) L -> In L (b ++ a) -> rch (add_all N L0) (b ++ a) L.
+Proof.
+  intros N b L0 a L R. induction R as [L I D|L' L R IH I D]; intros I'.
+  - apply rch_base; [exact I'|]. apply disjointb_false in D. destruct D as (x & Hx & HN).
+    apply disjointb_false. exists x. split; [exact Hx|apply add_all_In; left; exact HN].
+  - destruct (list_eq_dec Nat.eq_dec L' L0) as [E|NE].
+    + subst L'. apply rch_base; [exact I'|]. apply disjointb_false in D. destruct D as (x & Hx & H0).
+      apply disjointb_false. exists x. split; [exact Hx|apply add_all_In; right; exact H0].
+    + assert (IL' : In L' (b ++ a)).
+      { assert (J : In L' (b ++ L0 :: a)) by (destruct R; assumption).
+        rewrite in_app_iff in *. cbn [In] in J. destruct J as [J|[J|J]]; [tauto|congruence|tauto]. }
+      eapply rch_step; [apply IH; exact IL'|exact I'|exact D].
+Qed.
+
+Lemma join_loops_ok : forall fuel N ls, length ls <= fuel -> all_connected N ls ->
+  snd (join_loops fuel N ls) = true /\
+  Permutation (map fst (fst (join_loops fuel N ls))) (map fst ls).
+Proof.
+  induction fuel as [|f IH]; intros N ls Hf C.
+  - destruct ls; [|cbn in Hf; lia]. cbn. auto.
+  - destruct ls as [|first rest]; [cbn; auto|]. cbn [join_loops].
+    destruct (pick N (first :: rest)) as [[[b L] a]|] eqn:P.
+    + destruct (pick_some _ _ _ _ _ P) as (Eq & D). rewrite D.
+      assert (Hlen : length (b ++ a) <= f).
+      { assert (E : length (first :: rest) = length (b ++ L :: a)) by (rewrite Eq; reflexivity).
+        rewrite app_length in *. cbn [length] in *. lia. }
+      assert (C' : all_connected (add_all N (snd L)) (b ++ a)).
+      { intros X IX. rewrite map_app. apply rch_after_join.
+        - pose proof (C X) as CX. rewrite Eq, map_app in CX. cbn [map] in CX. apply CX.
+          rewrite in_app_iff in *. cbn [In]. tauto.
+        - rewrite <- map_app. apply in_map. exact IX. }
+      destruct (IH _ _ Hlen C') as (Ok & Pm).
+      destruct (join_loops f (add_all N (snd L)) (b ++ a)) as [js ok]. cbn [fst snd] in *.
+      split; [exact Ok|]. rewrite Eq. cbn [map]. rewrite map_app. cbn [map].
+      eapply Permutation_trans; [apply perm_skip; exact Pm|].
+      rewrite map_app. apply Permutation_middle.
+    + exfalso. destruct (rch_touches _ _ _ (C first (or_introl eq_refl))) as (L0 & I0 & D0).
+      apply in_map_iff in I0. destruct I0 as (X & EX & IX). subst L0.
+      rewrite (pick_none _ _ P X IX) in D0. discriminate.
+Qed.
+
+Lemma number_length : forall A (l : list A), length (number l) = length l.
+Proof. intros A l. unfold number. rewrite combine_length, seq_length. lia. Qed.
+
+Lemma number_snd : forall A (l : list A), map snd (number l) = l.
+Proof.
+  intros A l. unfold number. generalize 0. induction l as [|x t IH]; intros k; [reflexivity|].
+  cbn. rewrite IH. reflexivity.
+Qed.
+
+Lemma number_fst : forall A (l : list A), map fst (number l) = seq 0 (length l).
+Proof.
+  intros A l. unfold number. generalize 0. induction l as [|x t IH]; intros k; [reflexivity|].
+  cbn. rewrite IH. reflexivity.
+Qed.
+
+Lemma join_order_ok : forall N loops,
+  (forall L, In L loops -> rch N loops L) ->
+  snd (join_order N loops) = true /\
+  Permutation (map fst (fst (join_order N loops))) (seq 0 (length loops)).
+Proof.
+  intros N loops C. unfold join_order.
+  assert (AC : all_connected N (number loops)).
+  { intros X IX. rewrite number_snd. apply C. rewrite <- (number_snd _ loops). apply in_map. exact IX. }
+  destruct (join_loops_ok (length loops) N (number loops)) as (Ok & Pm);
+    [apply Nat.eq_le_incl, number_length|exact AC|].
+  split; [exact Ok|]. rewrite number_fst in Pm. exact Pm.
+Qed.
